@@ -35,7 +35,7 @@ def do_case(ctx, inp):
     def viol(x): return [dot(cs, x) < b for b, cs in p["rows"]]
     vs = [viol(x) for x in flat]
     facet = any(dot(cs, x) == b for x in flat for b, cs in p["rows"])
-    ctx.case(inp, nontrivial=facet or any(any(v) and not all(v) for v in vs), tags=({"thousands-of-points"} if inp.get("big") else set()) | ({"layout-" + inp["layout"]} if inp.get("layout") else set()) | {f"ndim-{d}", "poly-dtype-" + str(inp.get("pdtype", "int64")), "points-dtype-" + str(inp.get("xdtype", "int64"))}
+    ctx.case(inp, nontrivial=facet or any(any(v) and not all(v) for v in vs), tags=({"thousands-of-points"} if inp.get("big") else set()) | ({"magnitudes-above-2^53"} if inp.get("huge") else set()) | ({"layout-" + inp["layout"]} if inp.get("layout") else set()) | {f"ndim-{d}", "poly-dtype-" + str(inp.get("pdtype", "int64")), "points-dtype-" + str(inp.get("xdtype", "int64"))}
              | ({"facet-point"} if facet else set())
              | ({"row-sum-exceeds-narrow-dtype"} if inp.get("pdtype") in ("int8", "int16") and any(abs(dot(cs, x)) > (127 if inp["pdtype"] == "int8" else 32767) for x in flat for _, cs in p["rows"]) else set()))
     ctx.op({"op": "classify", "p": p, "d": d, "pts": pts}, {"sat": sat, "sep": sep, "rowsep": rowsep})
@@ -61,6 +61,27 @@ def gen_point(rng, p):
     return x
 
 
+def huge_case(rng):
+    """int64 magnitudes above 2**53 with a slack of -1, 0 or +1: every value fits into 64 bits, so the classification
+    is exact in integer arithmetic — and wrong as soon as anything is computed in double precision"""
+    nc = rng.randint(1, 3)
+    def point():
+        x = [rng.randint(-3, 3) for _ in range(nc)]
+        j = rng.randrange(nc)
+        x[j] = rng.choice([1, -1]) * (2 ** rng.choice([53, 54, 56, 60]) + rng.randint(0, 9))
+        return x
+    d = rng.choice([1, 2, 3, 3])
+    pts = point() if d == 1 else [point() for _ in range(rng.randint(1, 3))] if d == 2 else \
+        [[point() for _ in range(rng.randint(1, 2) if False else 2)] for _ in range(rng.randint(1, 3))]
+    flat = [pts] if d == 1 else pts if d == 2 else [x for grp in pts for x in grp]
+    rows = []
+    for _ in range(rng.randint(1, 2)):
+        cs = [rng.choice([1, 1, 2, -1, 3, -2]) for _ in range(nc)]
+        x = rng.choice(flat)
+        rows.append([dot(cs, x) + rng.choice([-1, 0, 1, 0]), cs])
+    return {"p": {"bnds": [[-2 ** 62, 2 ** 62]] * nc, "rows": rows}, "d": d, "pts": pts, "huge": True}
+
+
 def big_case(rng):
     """a points matrix (or a stack) with thousands of points: anything that evaluates points in blocks must also
     get the last block right"""
@@ -78,6 +99,8 @@ def big_case(rng):
 def run(ctx):
     for _ in range(8 if ctx.quick else 20):
         do_case(ctx, big_case(ctx.rng))
+    for _ in range((60 if ctx.quick else 600) * (3 if ctx.search else 1)):
+        do_case(ctx, huge_case(ctx.rng))
     n = (1200 if ctx.quick else 12000) * (3 if ctx.search else 1)
     for _ in range(n):
         p = gen_poly(ctx.rng, ctx.quick)
